@@ -92,6 +92,7 @@ def idx(e, i): return {"k": "idx", "e": e, "i": i}
 def dynidx(e, i): return {"k": "dynidx", "e": e, "i": i}
 def view(e, to): return {"k": "view", "e": e, "to": to}
 def resize(e, w): return {"k": "resize", "e": e, "w": w}
+def call(f, args, p=None): return {"k": "call", "f": f, "args": args, "p": p or []}
 NULL = {"k": "null"}
 FULL = {"k": "full"}
 def strlit(s): return {"k": "strlit", "s": s, "b": [int(c) for c in reversed(s)]}
@@ -173,6 +174,18 @@ class Printer:
             return f"{self.expr(e['e'])}.{ {'u': 'unsigned', 's': 'signed', 'bv': 'bitvector'}[e['to']] }"
         if k == "resize":
             return f"{self.expr(e['e'])}.resize({e['w']})"
+        if k == "call":
+            a = [self.expr(x) for x in e["args"]]
+            f, p = e["f"], e["p"]
+            if f in ("minimum", "maximum", "min_index", "max_index"):
+                return f"std.{f}([{', '.join(a)}])"
+            if f == "count":
+                return f"std.count([{', '.join(a[:-1])}], {a[-1]})"
+            if f == "one_hot":
+                return f"std.one_hot({p[0]}, {a[0]})"
+            if f == "clamp":
+                return f"std.clamp({a[0]}, {p[0]}, {p[1]})"
+            return f"std.{f}({', '.join(a + [str(x) for x in p])})"
         raise ValueError(k)
 
     def target(self, t):
